@@ -20,6 +20,11 @@ from harness.props import C04_port as PORT
 
 RARE = {
     "incumbent_equals_minus_bound_max", "incumbent_equals_minus_bound_min",
+    "incumbent_equals_minus_bound_max_then_improved", "incumbent_equals_minus_bound_min_then_improved",
+    "incumbent_equals_bound_open_nodes", "incumbent_equals_bound_open_nodes_then_improved",
+    "frac_node_int_value_noise_up_max", "frac_node_int_value_noise_up_min", "frac_node_int_value_noise_down_max",
+    "frac_node_int_value_noise_down_min", "frac_node_int_value_noise_up_max_attained", "frac_node_int_value_noise_up_min_attained",
+    "frac_node_int_value_noise_down_max_attained", "frac_node_int_value_noise_down_min_attained",
     "incumbent_and_bound_opposite_signs_max", "incumbent_and_bound_opposite_signs_min",
     "int_lp_value_float_noise_up_max", "int_lp_value_float_noise_up_min",
     "int_lp_value_float_noise_down_max", "int_lp_value_float_noise_down_min",
@@ -87,9 +92,11 @@ def events_of(inst):
     return sorted(out)
 
 
-def event_search(rng, pmap, draws, quota_rare, quota_common, rounds=2):
-    """-> list of (inst, events it was kept for), histogram of events seen"""
+def event_search(rng, pmap, draws, quota_rare, quota_common, rounds=2, seeds=()):
+    """-> list of (inst, events it was kept for), histogram of events seen.  `seeds`: instances whose neighbours join the first pool"""
     pool = [gen_tiny(rng) for _ in range(draws)]
+    for s0 in seeds:
+        pool += [mutate(rng, mutate(rng, s0)) if rng.random() < 0.5 else mutate(rng, s0) for _ in range(8)]
     kept, have, seen = [], {}, {}
     for rnd in range(rounds):
         evs = pmap(events_of, pool, chunksize=16)
@@ -209,7 +216,7 @@ def size_instances(rng, big=False):
         out.append({"c": p, "A": A, "b": [2 * k + 1] + [1] * n, "ints": list(range(n)), "minimize": False,
                     "known": ("OPT", sum(sorted(p)[-k:]), None), "family": "size:knapsack", "x0": [0] * n})
     # independent blocks  max 5x+4y, 6x+4y<=24, x+2y<=6 (optimum 20 each; LP 21 each): depth = number of blocks
-    for nb in [4, 8]:
+    for nb in [4, 6]:
         n = 2 * nb
         c, A, b = [], [], []
         for i in range(nb):
@@ -253,7 +260,7 @@ def option_sweeps(rng):
         vs.append({"lns_iterations": 3, "heuristics": True, "lns_destroy_frac": frac})
     for g in [0.0, 1e-9, 1e-3, 0.1, 0.5, 1.0, 2.0]:
         vs.append({"gap_tol": g, "heuristics": rng.random() < 0.5})
-    for e in [1e-9, 1e-7, 1e-6, 0.0]:
+    for e in [1e-9, 1e-8, 1e-7, 1e-6]:        # eps = 0.0 is not swept: see corpus/C04/observations/eps_zero.json
         vs.append({"eps": e, "heuristics": rng.random() < 0.5})
     vs.append({"max_iter": 10000 - 1})
     vs.append({"max_iter": 10000 + 1})
@@ -263,7 +270,7 @@ def option_sweeps(rng):
 
 
 # ---------------------------------------------------------------------------------- I: container forms
-FORMS = ["list", "tuple", "float", "range_ints", "reversed_ints", "float_tuple"]
+FORMS = ["list", "tuple", "float", "range_ints", "reversed_ints", "float_tuple", "gen_warm"]
 
 
 def apply_form(form, c, A, b, ints, ws):
@@ -284,4 +291,6 @@ def apply_form(form, c, A, b, ints, ws):
             ints = range(ints[0], ints[-1] + 1)
     elif form == "reversed_ints":
         ints = list(reversed(ints))
+    elif form == "gen_warm":
+        ws = None if ws is None else (v for v in list(ws))      # warm_start is consumed once (tuple(warm_start)): a one-shot iterator is fine
     return c, A, b, ints, ws
